@@ -1200,7 +1200,7 @@ def nested_star_example():
 
 # ------------------------------------------------------------------------------------------- C25: random graphs
 
-def gen_graph(rng, nmax=30, nmin=3):
+def gen_graph(rng, nmax=30, nmin=3, maxlinks=3, dense=False):
     """random connected graph description: nodes (hosts and routers), one-hop routes with 1..3 links, symmetrical or
     declared in both directions with different links (then possibly of different lengths)"""
     n = rng.randint(nmin, nmax)
@@ -1211,7 +1211,7 @@ def gen_graph(rng, nmax=30, nmin=3):
     und = set()
     for i in range(1, n):
         und.add((order[rng.randrange(i)], order[i]))
-    extra = rng.randint(0, n)
+    extra = rng.randint(n, 2 * n) if dense else rng.randint(0, n)      # dense: many alternative chains
     tries = 0
     while extra > 0 and tries < 200 and n > 2:
         tries += 1
@@ -1232,7 +1232,7 @@ def gen_graph(rng, nmax=30, nmin=3):
         return tok
 
     def rl():
-        k = rng.choice([1, 1, 1, 2, 2, 3])
+        k = rng.choice([1, 1, 1, 2, 2, 3]) if maxlinks <= 3 else rng.randint(1, maxlinks)
         out = []
         for _ in range(k):
             t = rng.choice(pool) if pool and rng.random() < 0.25 else mk()
